@@ -301,7 +301,7 @@ def make_vars(q, objs, one_shot: bool = False, wrap_domain=None):
     return V
 
 
-def build_query(q, V, objs, quantification=None, cond_memo=None):
+def build_query(q, V, objs, quantification=None, cond_memo=None, attr_memo=None):
     """Build one real EQL query over existing variables V. Returns (query_object, selected exprs, single).
     cond_memo: dict shared between several builds — a compound condition (and_/or_) whose AST was built before is
     REUSED as the same Python object (the user stored the condition in a variable and used it in two queries)."""
@@ -310,7 +310,7 @@ def build_query(q, V, objs, quantification=None, cond_memo=None):
                                                       flatten)
     from krrood.entity_query_language.quantify_entity import an
 
-    shared = {}
+    shared = attr_memo if attr_memo is not None else {}
 
     def term(t):
         if t[0] == "var":
@@ -318,7 +318,7 @@ def build_query(q, V, objs, quantification=None, cond_memo=None):
         if t[0] == "lit":
             return list(t[1]) if isinstance(t[1], list) else real_val(t[1], objs)
         if t[0] == "attr":
-            if q.get("share_attr_nodes"):
+            if q.get("share_attr_nodes") or attr_memo is not None:
                 # the user stored `x.a` in a Python variable and uses that ONE node object at every occurrence
                 key = repr(t)
                 if key not in shared:
